@@ -688,6 +688,386 @@ Theorem C14_grid_axis_component_index :
          2%Z, 2%Z, 2%Z))].
 Proof. exact @ApiGenEq.gen_axis_index. Qed.
 
+(* BaseGrid2D.__call__ hands (zaxis, xaxis, grid, points as float64, fill_value) to interp2d, parameter by parameter; fill_value defaults to NaN *)
+Theorem C14_grid_call_wiring_2d :
+  ApiGen.call_2d_binding =
+       [(String.String (Ascii.Ascii false false false true true true true false) String.EmptyString,
+         String.String (Ascii.Ascii true true false false true true true false)
+           (String.String (Ascii.Ascii true false true false false true true false)
+              (String.String (Ascii.Ascii false false true true false true true false)
+                 (String.String (Ascii.Ascii false true true false false true true false)
+                    (String.String (Ascii.Ascii false true true true false true false false)
+                       (String.String (Ascii.Ascii false true false true true true true false)
+                          (String.String (Ascii.Ascii true false false false false true true false)
+                             (String.String (Ascii.Ascii false false false true true true true false)
+                                (String.String (Ascii.Ascii true false false true false true true false)
+                                   (String.String (Ascii.Ascii true true false false true true true false)
+                                      String.EmptyString))))))))));
+        (String.String (Ascii.Ascii true false false true true true true false) String.EmptyString,
+         String.String (Ascii.Ascii true true false false true true true false)
+           (String.String (Ascii.Ascii true false true false false true true false)
+              (String.String (Ascii.Ascii false false true true false true true false)
+                 (String.String (Ascii.Ascii false true true false false true true false)
+                    (String.String (Ascii.Ascii false true true true false true false false)
+                       (String.String (Ascii.Ascii false false false true true true true false)
+                          (String.String (Ascii.Ascii true false false false false true true false)
+                             (String.String (Ascii.Ascii false false false true true true true false)
+                                (String.String (Ascii.Ascii true false false true false true true false)
+                                   (String.String (Ascii.Ascii true true false false true true true false)
+                                      String.EmptyString))))))))));
+        (String.String (Ascii.Ascii false true true false true true true false) String.EmptyString,
+         String.String (Ascii.Ascii true true false false true true true false)
+           (String.String (Ascii.Ascii true false true false false true true false)
+              (String.String (Ascii.Ascii false false true true false true true false)
+                 (String.String (Ascii.Ascii false true true false false true true false)
+                    (String.String (Ascii.Ascii false true true true false true false false)
+                       (String.String (Ascii.Ascii true true true true true false true false)
+                          (String.String (Ascii.Ascii true true true false false true true false)
+                             (String.String (Ascii.Ascii false true false false true true true false)
+                                (String.String (Ascii.Ascii true false false true false true true false)
+                                   (String.String (Ascii.Ascii false false true false false true true false)
+                                      String.EmptyString))))))))));
+        (String.String (Ascii.Ascii true false false false true true true false) String.EmptyString,
+         String.String (Ascii.Ascii false true true true false true true false)
+           (String.String (Ascii.Ascii false false false false true true true false)
+              (String.String (Ascii.Ascii false true true true false true false false)
+                 (String.String (Ascii.Ascii true false false false false true true false)
+                    (String.String (Ascii.Ascii true true false false true true true false)
+                       (String.String (Ascii.Ascii true false false false false true true false)
+                          (String.String (Ascii.Ascii false true false false true true true false)
+                             (String.String (Ascii.Ascii false true false false true true true false)
+                                (String.String (Ascii.Ascii true false false false false true true false)
+                                   (String.String (Ascii.Ascii true false false true true true true false)
+                                      (String.String (Ascii.Ascii false false false true false true false false)
+                                         (String.String (Ascii.Ascii false false false false true true true false)
+                                            (String.String (Ascii.Ascii true true true true false true true false)
+                                               (String.String (Ascii.Ascii true false false true false true true false)
+                                                  (String.String
+                                                     (Ascii.Ascii false true true true false true true false)
+                                                     (String.String
+                                                        (Ascii.Ascii false false true false true true true false)
+                                                        (String.String
+                                                           (Ascii.Ascii true true false false true true true false)
+                                                           (String.String
+                                                              (Ascii.Ascii false false true true false true false false)
+                                                              (String.String
+                                                                 (Ascii.Ascii false false false false false true false
+                                                                    false)
+                                                                 (String.String
+                                                                    (Ascii.Ascii false false true false false true true
+                                                                       false)
+                                                                    (String.String
+                                                                       (Ascii.Ascii false false true false true true
+                                                                          true false)
+                                                                       (String.String
+                                                                          (Ascii.Ascii true false false true true true
+                                                                             true false)
+                                                                          (String.String
+                                                                             (Ascii.Ascii false false false false true
+                                                                                true true false)
+                                                                             (String.String
+                                                                                (Ascii.Ascii true false true false
+                                                                                   false true true false)
+                                                                                (String.String
+                                                                                   (Ascii.Ascii true false true true
+                                                                                      true true false false)
+                                                                                   (String.String
+                                                                                      (Ascii.Ascii false true true true
+                                                                                         false true true false)
+                                                                                      (String.String
+                                                                                         (Ascii.Ascii false false false
+                                                                                          false true true true false)
+                                                                                         (String.String
+                                                                                          (Ascii.Ascii false true true
+                                                                                          true false true false false)
+                                                                                          (String.String
+                                                                                          (Ascii.Ascii false true true
+                                                                                          false false true true false)
+                                                                                          (String.String
+                                                                                          (Ascii.Ascii false false true
+                                                                                          true false true true false)
+                                                                                          (String.String
+                                                                                          (Ascii.Ascii true true true
+                                                                                          true false true true false)
+                                                                                          (String.String
+                                                                                          (Ascii.Ascii true false false
+                                                                                          false false true true false)
+                                                                                          (String.String
+                                                                                          (Ascii.Ascii false false true
+                                                                                          false true true true false)
+                                                                                          (String.String
+                                                                                          (Ascii.Ascii false true true
+                                                                                          false true true false false)
+                                                                                          (String.String
+                                                                                          (Ascii.Ascii false false true
+                                                                                          false true true false false)
+                                                                                          (String.String
+                                                                                          (Ascii.Ascii true false false
+                                                                                          true false true false false)
+                                                                                          String.EmptyString))))))))))))))))))))))))))))))))))));
+        (String.String (Ascii.Ascii false true true false false true true false)
+           (String.String (Ascii.Ascii false true true false true true true false)
+              (String.String (Ascii.Ascii true false false false false true true false)
+                 (String.String (Ascii.Ascii false false true true false true true false) String.EmptyString))),
+         String.String (Ascii.Ascii false true true false false true true false)
+           (String.String (Ascii.Ascii true false false true false true true false)
+              (String.String (Ascii.Ascii false false true true false true true false)
+                 (String.String (Ascii.Ascii false false true true false true true false)
+                    (String.String (Ascii.Ascii true true true true true false true false)
+                       (String.String (Ascii.Ascii false true true false true true true false)
+                          (String.String (Ascii.Ascii true false false false false true true false)
+                             (String.String (Ascii.Ascii false false true true false true true false)
+                                (String.String (Ascii.Ascii true false true false true true true false)
+                                   (String.String (Ascii.Ascii true false true false false true true false)
+                                      String.EmptyString))))))))))] /\
+       fst ApiGen.call_2d_call =
+       String.String (Ascii.Ascii true false false true false true true false)
+         (String.String (Ascii.Ascii false true true true false true true false)
+            (String.String (Ascii.Ascii false false true false true true true false)
+               (String.String (Ascii.Ascii true false true false false true true false)
+                  (String.String (Ascii.Ascii false true false false true true true false)
+                     (String.String (Ascii.Ascii false false false false true true true false)
+                        (String.String (Ascii.Ascii false true false false true true false false)
+                           (String.String (Ascii.Ascii false false true false false true true false) String.EmptyString))))))) /\
+       map fst ApiGen.call_2d_binding = ApiGen.interp2d_params /\
+       map snd ApiGen.call_2d_binding = snd ApiGen.call_2d_call /\
+       ApiGen.call_2d_params =
+       [String.String (Ascii.Ascii false false false false true true true false)
+          (String.String (Ascii.Ascii true true true true false true true false)
+             (String.String (Ascii.Ascii true false false true false true true false)
+                (String.String (Ascii.Ascii false true true true false true true false)
+                   (String.String (Ascii.Ascii false false true false true true true false)
+                      (String.String (Ascii.Ascii true true false false true true true false) String.EmptyString)))));
+        String.String (Ascii.Ascii false true true false false true true false)
+          (String.String (Ascii.Ascii true false false true false true true false)
+             (String.String (Ascii.Ascii false false true true false true true false)
+                (String.String (Ascii.Ascii false false true true false true true false)
+                   (String.String (Ascii.Ascii true true true true true false true false)
+                      (String.String (Ascii.Ascii false true true false true true true false)
+                         (String.String (Ascii.Ascii true false false false false true true false)
+                            (String.String (Ascii.Ascii false false true true false true true false)
+                               (String.String (Ascii.Ascii true false true false true true true false)
+                                  (String.String (Ascii.Ascii true false true false false true true false)
+                                     (String.String (Ascii.Ascii true false true true true true false false)
+                                        (String.String (Ascii.Ascii false true true true false true true false)
+                                           (String.String (Ascii.Ascii false false false false true true true false)
+                                              (String.String (Ascii.Ascii false true true true false true false false)
+                                                 (String.String
+                                                    (Ascii.Ascii false true true true false true true false)
+                                                    (String.String
+                                                       (Ascii.Ascii true false false false false true true false)
+                                                       (String.String
+                                                          (Ascii.Ascii false true true true false true true false)
+                                                          String.EmptyString))))))))))))))))] /\
+       ApiGen.interp2d_defaults =
+       [(String.String (Ascii.Ascii false true true false false true true false)
+           (String.String (Ascii.Ascii false true true false true true true false)
+              (String.String (Ascii.Ascii true false false false false true true false)
+                 (String.String (Ascii.Ascii false false true true false true true false) String.EmptyString))),
+         String.String (Ascii.Ascii false true true true false true true false)
+           (String.String (Ascii.Ascii false false false false true true true false)
+              (String.String (Ascii.Ascii false true true true false true false false)
+                 (String.String (Ascii.Ascii false true true true false true true false)
+                    (String.String (Ascii.Ascii true false false false false true true false)
+                       (String.String (Ascii.Ascii false true true true false true true false) String.EmptyString))))))].
+Proof. exact @ApiGenEq.gen_call_2d_wiring. Qed.
+
+(* 3D *)
+Theorem C14_grid_call_wiring_3d :
+  ApiGen.call_3d_binding =
+       [(String.String (Ascii.Ascii false false false true true true true false) String.EmptyString,
+         String.String (Ascii.Ascii true true false false true true true false)
+           (String.String (Ascii.Ascii true false true false false true true false)
+              (String.String (Ascii.Ascii false false true true false true true false)
+                 (String.String (Ascii.Ascii false true true false false true true false)
+                    (String.String (Ascii.Ascii false true true true false true false false)
+                       (String.String (Ascii.Ascii false true false true true true true false)
+                          (String.String (Ascii.Ascii true false false false false true true false)
+                             (String.String (Ascii.Ascii false false false true true true true false)
+                                (String.String (Ascii.Ascii true false false true false true true false)
+                                   (String.String (Ascii.Ascii true true false false true true true false)
+                                      String.EmptyString))))))))));
+        (String.String (Ascii.Ascii true false false true true true true false) String.EmptyString,
+         String.String (Ascii.Ascii true true false false true true true false)
+           (String.String (Ascii.Ascii true false true false false true true false)
+              (String.String (Ascii.Ascii false false true true false true true false)
+                 (String.String (Ascii.Ascii false true true false false true true false)
+                    (String.String (Ascii.Ascii false true true true false true false false)
+                       (String.String (Ascii.Ascii false false false true true true true false)
+                          (String.String (Ascii.Ascii true false false false false true true false)
+                             (String.String (Ascii.Ascii false false false true true true true false)
+                                (String.String (Ascii.Ascii true false false true false true true false)
+                                   (String.String (Ascii.Ascii true true false false true true true false)
+                                      String.EmptyString))))))))));
+        (String.String (Ascii.Ascii false true false true true true true false) String.EmptyString,
+         String.String (Ascii.Ascii true true false false true true true false)
+           (String.String (Ascii.Ascii true false true false false true true false)
+              (String.String (Ascii.Ascii false false true true false true true false)
+                 (String.String (Ascii.Ascii false true true false false true true false)
+                    (String.String (Ascii.Ascii false true true true false true false false)
+                       (String.String (Ascii.Ascii true false false true true true true false)
+                          (String.String (Ascii.Ascii true false false false false true true false)
+                             (String.String (Ascii.Ascii false false false true true true true false)
+                                (String.String (Ascii.Ascii true false false true false true true false)
+                                   (String.String (Ascii.Ascii true true false false true true true false)
+                                      String.EmptyString))))))))));
+        (String.String (Ascii.Ascii false true true false true true true false) String.EmptyString,
+         String.String (Ascii.Ascii true true false false true true true false)
+           (String.String (Ascii.Ascii true false true false false true true false)
+              (String.String (Ascii.Ascii false false true true false true true false)
+                 (String.String (Ascii.Ascii false true true false false true true false)
+                    (String.String (Ascii.Ascii false true true true false true false false)
+                       (String.String (Ascii.Ascii true true true true true false true false)
+                          (String.String (Ascii.Ascii true true true false false true true false)
+                             (String.String (Ascii.Ascii false true false false true true true false)
+                                (String.String (Ascii.Ascii true false false true false true true false)
+                                   (String.String (Ascii.Ascii false false true false false true true false)
+                                      String.EmptyString))))))))));
+        (String.String (Ascii.Ascii true false false false true true true false) String.EmptyString,
+         String.String (Ascii.Ascii false true true true false true true false)
+           (String.String (Ascii.Ascii false false false false true true true false)
+              (String.String (Ascii.Ascii false true true true false true false false)
+                 (String.String (Ascii.Ascii true false false false false true true false)
+                    (String.String (Ascii.Ascii true true false false true true true false)
+                       (String.String (Ascii.Ascii true false false false false true true false)
+                          (String.String (Ascii.Ascii false true false false true true true false)
+                             (String.String (Ascii.Ascii false true false false true true true false)
+                                (String.String (Ascii.Ascii true false false false false true true false)
+                                   (String.String (Ascii.Ascii true false false true true true true false)
+                                      (String.String (Ascii.Ascii false false false true false true false false)
+                                         (String.String (Ascii.Ascii false false false false true true true false)
+                                            (String.String (Ascii.Ascii true true true true false true true false)
+                                               (String.String (Ascii.Ascii true false false true false true true false)
+                                                  (String.String
+                                                     (Ascii.Ascii false true true true false true true false)
+                                                     (String.String
+                                                        (Ascii.Ascii false false true false true true true false)
+                                                        (String.String
+                                                           (Ascii.Ascii true true false false true true true false)
+                                                           (String.String
+                                                              (Ascii.Ascii false false true true false true false false)
+                                                              (String.String
+                                                                 (Ascii.Ascii false false false false false true false
+                                                                    false)
+                                                                 (String.String
+                                                                    (Ascii.Ascii false false true false false true true
+                                                                       false)
+                                                                    (String.String
+                                                                       (Ascii.Ascii false false true false true true
+                                                                          true false)
+                                                                       (String.String
+                                                                          (Ascii.Ascii true false false true true true
+                                                                             true false)
+                                                                          (String.String
+                                                                             (Ascii.Ascii false false false false true
+                                                                                true true false)
+                                                                             (String.String
+                                                                                (Ascii.Ascii true false true false
+                                                                                   false true true false)
+                                                                                (String.String
+                                                                                   (Ascii.Ascii true false true true
+                                                                                      true true false false)
+                                                                                   (String.String
+                                                                                      (Ascii.Ascii false true true true
+                                                                                         false true true false)
+                                                                                      (String.String
+                                                                                         (Ascii.Ascii false false false
+                                                                                          false true true true false)
+                                                                                         (String.String
+                                                                                          (Ascii.Ascii false true true
+                                                                                          true false true false false)
+                                                                                          (String.String
+                                                                                          (Ascii.Ascii false true true
+                                                                                          false false true true false)
+                                                                                          (String.String
+                                                                                          (Ascii.Ascii false false true
+                                                                                          true false true true false)
+                                                                                          (String.String
+                                                                                          (Ascii.Ascii true true true
+                                                                                          true false true true false)
+                                                                                          (String.String
+                                                                                          (Ascii.Ascii true false false
+                                                                                          false false true true false)
+                                                                                          (String.String
+                                                                                          (Ascii.Ascii false false true
+                                                                                          false true true true false)
+                                                                                          (String.String
+                                                                                          (Ascii.Ascii false true true
+                                                                                          false true true false false)
+                                                                                          (String.String
+                                                                                          (Ascii.Ascii false false true
+                                                                                          false true true false false)
+                                                                                          (String.String
+                                                                                          (Ascii.Ascii true false false
+                                                                                          true false true false false)
+                                                                                          String.EmptyString))))))))))))))))))))))))))))))))))));
+        (String.String (Ascii.Ascii false true true false false true true false)
+           (String.String (Ascii.Ascii false true true false true true true false)
+              (String.String (Ascii.Ascii true false false false false true true false)
+                 (String.String (Ascii.Ascii false false true true false true true false) String.EmptyString))),
+         String.String (Ascii.Ascii false true true false false true true false)
+           (String.String (Ascii.Ascii true false false true false true true false)
+              (String.String (Ascii.Ascii false false true true false true true false)
+                 (String.String (Ascii.Ascii false false true true false true true false)
+                    (String.String (Ascii.Ascii true true true true true false true false)
+                       (String.String (Ascii.Ascii false true true false true true true false)
+                          (String.String (Ascii.Ascii true false false false false true true false)
+                             (String.String (Ascii.Ascii false false true true false true true false)
+                                (String.String (Ascii.Ascii true false true false true true true false)
+                                   (String.String (Ascii.Ascii true false true false false true true false)
+                                      String.EmptyString))))))))))] /\
+       fst ApiGen.call_3d_call =
+       String.String (Ascii.Ascii true false false true false true true false)
+         (String.String (Ascii.Ascii false true true true false true true false)
+            (String.String (Ascii.Ascii false false true false true true true false)
+               (String.String (Ascii.Ascii true false true false false true true false)
+                  (String.String (Ascii.Ascii false true false false true true true false)
+                     (String.String (Ascii.Ascii false false false false true true true false)
+                        (String.String (Ascii.Ascii true true false false true true false false)
+                           (String.String (Ascii.Ascii false false true false false true true false) String.EmptyString))))))) /\
+       map fst ApiGen.call_3d_binding = ApiGen.interp3d_params /\
+       map snd ApiGen.call_3d_binding = snd ApiGen.call_3d_call /\
+       ApiGen.call_3d_params =
+       [String.String (Ascii.Ascii false false false false true true true false)
+          (String.String (Ascii.Ascii true true true true false true true false)
+             (String.String (Ascii.Ascii true false false true false true true false)
+                (String.String (Ascii.Ascii false true true true false true true false)
+                   (String.String (Ascii.Ascii false false true false true true true false)
+                      (String.String (Ascii.Ascii true true false false true true true false) String.EmptyString)))));
+        String.String (Ascii.Ascii false true true false false true true false)
+          (String.String (Ascii.Ascii true false false true false true true false)
+             (String.String (Ascii.Ascii false false true true false true true false)
+                (String.String (Ascii.Ascii false false true true false true true false)
+                   (String.String (Ascii.Ascii true true true true true false true false)
+                      (String.String (Ascii.Ascii false true true false true true true false)
+                         (String.String (Ascii.Ascii true false false false false true true false)
+                            (String.String (Ascii.Ascii false false true true false true true false)
+                               (String.String (Ascii.Ascii true false true false true true true false)
+                                  (String.String (Ascii.Ascii true false true false false true true false)
+                                     (String.String (Ascii.Ascii true false true true true true false false)
+                                        (String.String (Ascii.Ascii false true true true false true true false)
+                                           (String.String (Ascii.Ascii false false false false true true true false)
+                                              (String.String (Ascii.Ascii false true true true false true false false)
+                                                 (String.String
+                                                    (Ascii.Ascii false true true true false true true false)
+                                                    (String.String
+                                                       (Ascii.Ascii true false false false false true true false)
+                                                       (String.String
+                                                          (Ascii.Ascii false true true true false true true false)
+                                                          String.EmptyString))))))))))))))))] /\
+       ApiGen.interp3d_defaults =
+       [(String.String (Ascii.Ascii false true true false false true true false)
+           (String.String (Ascii.Ascii false true true false true true true false)
+              (String.String (Ascii.Ascii true false false false false true true false)
+                 (String.String (Ascii.Ascii false false true true false true true false) String.EmptyString))),
+         String.String (Ascii.Ascii false true true true false true true false)
+           (String.String (Ascii.Ascii false false false false true true true false)
+              (String.String (Ascii.Ascii false true true true false true false false)
+                 (String.String (Ascii.Ascii false true true true false true true false)
+                    (String.String (Ascii.Ascii true false false false false true true false)
+                       (String.String (Ascii.Ascii false true true true false true true false) String.EmptyString))))))].
+Proof. exact @ApiGenEq.gen_call_3d_wiring. Qed.
+
 (* non-vacuity: a concrete ascending axis with two nodes *)
 Example C14_axis_inhabited : SSR.axis (mkarr [2%Z] [0; 1]) 2.
 Proof. repeat split; try reflexivity; try (compute; discriminate). intros i j [[Hi Hij] Hj]. assert (i = 0%Z) by lia. assert (j = 1%Z) by lia. subst. unfold get; simpl. lra. Qed.
@@ -714,3 +1094,5 @@ Print Assumptions C14_grid_axes_3d_x.
 Print Assumptions C14_grid_axes_3d_y.
 Print Assumptions C14_grid_axes_read_stored_attributes.
 Print Assumptions C14_grid_axis_component_index.
+Print Assumptions C14_grid_call_wiring_2d.
+Print Assumptions C14_grid_call_wiring_3d.
